@@ -419,7 +419,13 @@ def check_result_store(run, ctx):
             payload_ok = val[0] == 'agg' and val[1] == N.RESULT + '::Ok' and any(
                 field_path(strip_casts(x))[1][-2:] == ['as:Ok', '0'] and field_path(strip_casts(x))[0] == ('param', 3) for x in walk(val))
             keyarg = ex.operand(st['args'][1])
-            if not in_ok:
+            # nothing else may touch the store or the queue (an Err must leave an earlier Ok in place)
+            eff = Effects(ctx.prog, stop_at_operations=True)
+            other = sorted({k for (b_, k, ch) in eff.sites(body) if k[0] in 'SQ' and k not in ('Sget', 'S?', 'Slen', 'Qlen', 'Qiter', 'Siter')})
+            if other:
+                run.bad('C09-S1', key + '/extra-effects', '%s also performs %s besides its Ok-only store: an Err outcome then changes what is cached (e.g. drops an Ok stored by a '
+                        'concurrent or earlier call)' % (key, other), site=body.name, oracle='an Err outcome has no effect on the cache')
+            elif not in_ok:
                 run.bad('C09-S1', key + '/stores-err', '%s reaches its store call from the Err arm: Err values are cached' % key, site=body.name, oracle='store control-dependent on discriminant == Ok')
             elif not payload_ok or keyarg != ('param', 2):
                 run.bad('C09-S1', key + '/payload', '%s must store Ok(clone of the Ok payload) under the given key; stores %s under %s' % (key, show(val), show(keyarg)), site=body.name)
